@@ -22,6 +22,13 @@ case format
                 position: oc_coro oc_pre oc_post oc_thrown h_pre h_post h_thrown h_gexit od setup tls_hs   (injected tree)
                           rst tls_garbage tls_stall tls_close                                               (real set-up faults)
                 tree: "ClassName" | ["g", tree, …] | "@thrown" (re-raise the parse error thrown in) | "@closed_send"
+                malformed input sent by the faulty client itself: pos h_thrown | oc_thrown, tree "@thrown" and
+                  "bad": {"how": alone | glued (valid+bad in one segment) | glued2 (valid+bad+valid) | bad_first (bad+valid) |
+                                 split (bad over two segments) | split_glued (valid+half | rest) | twobad   [UDP: alone | burst],
+                          "react": catch (handler answers "bad" and goes on) | reraise | propagate (no except around the yield),
+                          "v": valid requests handled before it, "login_glued", "ytimeout" (yield with a timeout),
+                          "oc_busy" (data arrives while on_connection runs), "halfclose" (FIN right behind the data)}
+                "proto": "copy" (StreamProtocol / recv) | "buffered" (BufferedStreamProtocol / recv_into)      (top level)
   unit case   : {"kind": "unit", "op": "split"|"cls"|"filter", "cls": …, "filter": …, "tree": tree}
 """
 from __future__ import annotations
@@ -144,7 +151,7 @@ _baseline: dict[str, list[str]] = {}
 
 
 def baseline(case: dict) -> list[str]:
-    key = f"{case['kind']}/{case.get('oc', 'coro')}/{case.get('sched', 'mid')}"
+    key = f"{case['kind']}/{case.get('oc', 'coro')}/{case.get('sched', 'mid')}/{case.get('proto', 'copy')}"
     if key not in _baseline:
         b = dict(case)
         b["fault"] = None
@@ -187,6 +194,8 @@ def model_input(case: dict, real: list[str]):
     f = case.get("fault")
     if not f or f["pos"] in ("rst", "tls_close"):
         return None
+    if (f.get("bad") or {}).get("react") == "catch":
+        return None         # the handler deals with the parse error itself: nothing is raised, nothing for the model to say
     pos = "tls_hs" if f["pos"] in ("tls_garbage", "tls_stall") else f["pos"]
     toks = " ".join(R.tree_tokens(_eff_tree(case)))
     return f"iso {case['kind']} {case.get('oc', 'coro')}", [f"fault {pos} {f.get('k', 1)} {f.get('gen', 1)} {toks}"]
@@ -260,7 +269,17 @@ def _oracle(case: dict, real: list[str]) -> str | None:
         return None
     hooks = (_get(real, "hooks ") or "-").split()
     if f["pos"] not in ("rst", "tls_garbage", "tls_stall", "tls_close") and _get(real, "fault-raised ") != "1":
+        if f.get("bad"):
+            return "the parse error of the malformed packet was never thrown into the faulty client's handler"
         return "the faulty client never reached the hook position"
+    if f.get("bad"):
+        want = expected_faulty(case)
+        got = (_get(real, "faulty ") or "").split()
+        if case["kind"] == "udp":
+            got = got[:-1]          # (the trailing `again` is judged below)
+        if got != want:
+            return (f"the faulty client (malformed input {f['bad'].get('how')}, handler {f['bad'].get('react')}) was answered "
+                    f"{got}, expected {want}")
     if case["kind"] == "udp":
         if _get(real, "faulty-fresh ") != "1":
             return "a later datagram from the faulty address did not start a fresh handler"
@@ -286,6 +305,37 @@ def _oracle(case: dict, real: list[str]) -> str | None:
     if starts != ends:
         return f"{starts} handle generators started, {ends} closed"
     return None
+
+
+def expected_faulty(case: dict) -> list[str]:
+    """answers the faulty client must get when it sends malformed input: every valid request before the malformed packet
+    is answered by the generator it belongs to (2 requests per generator); a handler that catches the parse error
+    answers "bad" and goes on with what follows (same segment or later); otherwise nothing more is answered"""
+    f = case["fault"]
+    b = f["bad"]
+    catch = b.get("react") == "catch"
+    udp = case["kind"] == "udp"
+    _head, _final, packets = R.bad_script(case)
+    packets = list(packets)
+    if catch and not udp and not (b.get("halfclose") and case["kind"] == "tcp"):
+        if f["pos"] == "oc_thrown" and b.get("how") != "bad_first":
+            packets.append(("v", "login-F"))
+        packets.append(("v", "fz"))
+    oc_done = udp or case.get("oc", "coro") != "gen"
+    ans: list[str] = []
+    nv = 0
+    for kind, text in packets:
+        if kind == "b":
+            if not catch:
+                break
+            ans.append("bad")
+        elif not oc_done:
+            ans.append(f"welcome_{text}")
+            oc_done = True
+        else:
+            nv += 1
+            ans.append(f"pong_{text}_g{(nv - 1) // 2 + 1}")
+    return ans
 
 
 def _shape(t: Any) -> str:
@@ -322,6 +372,10 @@ def nontrivial(case: dict, real: list[str]) -> str | None:
         return f"{case['kind']}/{f['pos']}"
     if _get(real, "fault-raised ") != "1":
         return None
+    if f.get("bad"):
+        b = f["bad"]
+        extras = "+".join(k for k in ("login_glued", "ytimeout", "oc_busy", "halfclose") if b.get(k)) or "plain"
+        return f"{case['kind']}/bad/{f['pos']}/{b.get('how')}/{b.get('react')}/{case.get('proto', 'copy')}/{extras}"
     return f"{case['kind']}/{f['pos']}/{_shape(f['tree'])}/{_family(f['tree'])}"
 
 
@@ -331,6 +385,8 @@ def known_key(case: dict, real: list[str], why: str) -> str:
     if case["kind"] == "unit":
         return f"unit,{case['op']},{case.get('filter', '-')}"
     f = case.get("fault") or {}
+    if f.get("bad"):
+        return f"kind={case['kind']},pos={f.get('pos')},bad={f['bad'].get('how')}/{f['bad'].get('react')},proto={case.get('proto', 'copy')}"
     return f"kind={case['kind']},pos={f.get('pos')},leaf={'+'.join(sorted(set(R.leaves(f['tree'])))) if f.get('tree') and not str(f['tree']).startswith('@') else f.get('tree')}"
 
 
@@ -350,6 +406,18 @@ def shrink(case: dict) -> Iterator[dict]:
         return
     if case.get("sched", "mid") != "nohold":
         yield {**case, "sched": "nohold"}
+    if f.get("bad"):
+        b = f["bad"]
+        for k2 in ("ytimeout", "oc_busy", "halfclose", "login_glued"):
+            if b.get(k2):
+                yield {**case, "fault": {**f, "bad": {**b, k2: False}}}
+        v = int(b.get("v", 0))
+        vmin = 1 if b.get("how") in ("glued", "glued2", "split_glued", "burst") else 0
+        if f["pos"] != "oc_thrown" and v - 2 >= vmin:
+            yield {**case, "fault": {**f, "gen": (v - 2) // 2 + 1, "bad": {**b, "v": v - 2}}}
+        if case.get("oc") == "gen" and f["pos"] != "oc_thrown":
+            yield {**case, "oc": "coro", "fault": {**f, "bad": {**b, "login_glued": False}}}
+        return
     if f.get("gen", 1) > 1:
         yield {**case, "fault": {**f, "gen": 1}}
     if f.get("k", 1) > 1:
@@ -403,6 +471,46 @@ def server_case(kind: str, pos: str, tree: Any, rng: random.Random, **kw: Any) -
     return c
 
 
+def bad_case(kind: str, pos: str, how: str, react: str, rng: random.Random, **kw: Any) -> dict:
+    """the faulty client sends malformed input (vlib/c17_run.bad_script)"""
+    udp = kind == "udp"
+    vmin = 1 if how in ("glued", "glued2", "split_glued", "burst") else 0
+    v = kw["v"] if kw.get("v") is not None else rng.choice([x for x in (0, 1, 1, 2, 3) if x >= vmin])
+    if pos == "oc_thrown":
+        v = 0
+    c: dict = {"kind": kind, "sched": kw.get("sched") or rng.choice(["mid", "mid", "late", "nohold"])}
+    b: dict = {"how": how, "react": react, "v": v}
+    if not udp:
+        c["oc"] = "gen" if pos == "oc_thrown" else (kw.get("oc") or rng.choice(["coro", "gen"]))
+        c["proto"] = kw.get("proto") or rng.choice(["copy", "buffered"])
+        n_single = v - (1 if how in ("glued", "glued2", "split_glued") else 0)
+        if pos != "oc_thrown" and c["oc"] == "gen" and n_single == 0 and kw.get("login_glued", rng.random() < 0.5):
+            b["login_glued"] = True
+        if kw.get("ytimeout", rng.random() < 0.25):
+            b["ytimeout"] = True
+        head_empty = pos == "oc_thrown" or (n_single == 0 and (c["oc"] == "coro" or b.get("login_glued")))
+        if head_empty and kw.get("oc_busy", rng.random() < 0.4):
+            b["oc_busy"] = True
+        if kind == "tcp" and kw.get("halfclose", rng.random() < 0.2):
+            b["halfclose"] = True
+    c["fault"] = {"pos": pos, "tree": "@thrown", "gen": v // 2 + 1, "bad": b}
+    return c
+
+
+def bad_matrix(rng: random.Random) -> Iterator[dict]:
+    for kind in ("tcp", "tcp-tls"):
+        for proto in ("copy", "buffered"):
+            for react in ("catch", "reraise", "propagate"):
+                for how in R.BAD_HOWS_TCP:
+                    yield bad_case(kind, "h_thrown", how, react, rng, proto=proto)
+                for how in R.BAD_HOWS_OC:
+                    yield bad_case(kind, "oc_thrown", how, react, rng, proto=proto)
+    for react in ("catch", "reraise", "propagate"):
+        for how in R.BAD_HOWS_UDP:
+            for v in ((0, 1, 2) if how == "alone" else (1, 2, 3)):
+                yield bad_case("udp", "h_thrown", how, react, rng, v=v)
+
+
 def unit_cases(rng: random.Random, n: int) -> Iterator[dict]:
     pool_all = R.EXC_LEAVES + R.BASE_LEAVES
     for i in range(n):
@@ -431,6 +539,12 @@ def generate(rng: random.Random, tier: str, boost: int) -> Iterator[dict]:
     for kind in ("tcp", "udp", "tcp-tls"):
         for pos in positions(kind):
             yield server_case(kind, pos, rng.choice(["ValueError", "UserError", "Exception", "RuntimeError"]), rng, sched="mid")
+    # … and malformed input from the faulty client itself
+    yield bad_case("tcp", "h_thrown", "glued", "reraise", rng, v=1, oc="coro", proto="copy", sched="mid", ytimeout=False,
+                   oc_busy=False, halfclose=False)
+    yield bad_case("tcp-tls", "h_thrown", "glued2", "catch", rng, v=2, proto="buffered", sched="mid")
+    yield bad_case("tcp", "oc_thrown", "bad_first", "propagate", rng, proto="buffered", sched="nohold")
+    yield bad_case("udp", "h_thrown", "burst", "reraise", rng, v=1, sched="mid")
     # every leaf class alone through every unit filter (exhaustive over the alphabet)
     for leaf in R.EXC_LEAVES + R.BASE_LEAVES:
         for flt in UNIT_FILTERS:
@@ -441,6 +555,7 @@ def generate(rng: random.Random, tier: str, boost: int) -> Iterator[dict]:
     yield from unit_cases(rng, (12000 if thorough else 1500) * boost)
     rounds = (6 if thorough else 1) * boost
     for rnd in range(rounds):
+        yield from bad_matrix(rng)
         for kind in ("tcp", "udp", "tcp-tls"):
             # the full class x position matrix
             for pos in positions(kind):
